@@ -35,6 +35,7 @@
 #include <boost/archive/polymorphic_binary_oarchive.hpp>
 #include "common.hpp"
 #include <cfenv>
+#include <exception>
 #include <cstring>
 #include <memory>
 
@@ -320,10 +321,14 @@ int main(){
 					doInit(*cur, cfg, *f, x0);
 					ex = std::fetestexcept(FE_INEXACT) ? 0 : 1;
 				}else{
-					twin->o().step(*f);
+					// (the instance under test first: if it throws, the diagnosis below looks at ITS half-updated state)
+					// both instances are stepped whatever happens, so that they stay in lockstep after an exception
+					std::exception_ptr curErr;
 					std::feclearexcept(FE_ALL_EXCEPT);
-					cur->o().step(*f);
+					try{ cur->o().step(*f); }catch(...){ curErr = std::current_exception(); }
 					ex = std::fetestexcept(FE_INEXACT) ? 0 : 1;
+					try{ twin->o().step(*f); }catch(...){}
+					if(curErr) std::rethrow_exception(curErr);
 				}
 				RealVector const& pt = cur->o().solution().point;
 				double val = cur->o().solution().value;
@@ -469,6 +474,7 @@ int main(){
 					RealVector p0, bi, bp, g; std::vector<bool> blocked; bool pgzero;
 					f->both(pt, &g);
 					out << (cauchyTouchesBound(*wl->p, pt, g, f->lo, f->hi, p0, blocked, pgzero, bi, bp) ? " [cauchy-point-touches-bound]" : " [no-touching]");
+					out << " state:" << cur->extra(false);   // the half-updated state, for replaying the direction computation
 				}
 			}
 		}
